@@ -1,5 +1,6 @@
 use super::*;
 use std::fs;
+use std::path::PathBuf;
 
 #[derive(Debug, Default)]
 pub(crate) struct FilesWithBackupEmitter;
@@ -19,8 +20,21 @@ impl Emitter for FilesWithBackupEmitter {
             // Do a little dance to make writing safer - write to a temp file
             // rename the original to a .bk, then rename the temp file to the
             // original.
-            let tmp_name = filename.with_extension("tmp");
-            let bk_name = filename.with_extension("bk");
+            let (tmp_name, bk_name) = match filename.extension().and_then(|ext| ext.to_str()) {
+                // Replacing the extension of `FILE.tmp` or `FILE.bk` would name the file itself.
+                Some("tmp") | Some("bk") => {
+                    let append = |ext: &str| {
+                        let mut name = filename.as_os_str().to_owned();
+                        name.push(ext);
+                        PathBuf::from(name)
+                    };
+                    (append(".tmp"), append(".bk"))
+                }
+                _ => (
+                    filename.with_extension("tmp"),
+                    filename.with_extension("bk"),
+                ),
+            };
 
             #[cfg(rustfmt_verif)]
             crate::verif_hooks::crash_point("bk:before_write_tmp")?;
